@@ -89,10 +89,22 @@ mod imp {
             self.placed.clear();
         }
 
-        /// Lay out the episode's buffers.
-        pub fn load(&mut self, bufs: &[Buf]) {
+        /// Lay out the episode's buffers. `poison` selects what surrounds them.
+        pub fn load(&mut self, bufs: &[Buf], poison: u8) {
             self.reset();
             let mut next_region = 0;
+            let mut pattern: Vec<u8> = Vec::new();
+            if poison == 1 {
+                for b in bufs {
+                    pattern.extend_from_slice(&b.bytes);
+                    if pattern.len() >= DATA_PAGES * PAGE {
+                        break;
+                    }
+                }
+                if pattern.is_empty() {
+                    pattern.push(0xAA);
+                }
+            }
             for b in bufs {
                 let len = b.bytes.len();
                 if len <= DATA_PAGES * PAGE - 128 && next_region < POOL {
@@ -100,6 +112,16 @@ mod imp {
                     next_region += 1;
                     unsafe {
                         let data = self.base.add(r * REGION + PAGE);
+                        if poison == 1 {
+                            let mut off = 0;
+                            while off < DATA_PAGES * PAGE {
+                                let n = pattern.len().min(DATA_PAGES * PAGE - off);
+                                core::ptr::copy_nonoverlapping(pattern.as_ptr(), data.add(off), n);
+                                off += n;
+                            }
+                        } else {
+                            core::ptr::write_bytes(data, 0, DATA_PAGES * PAGE);
+                        }
                         let p = match b.place {
                             Place::Left => data,
                             Place::Right => data.add(DATA_PAGES * PAGE - len),
@@ -202,7 +224,7 @@ mod imp {
                 drop(Box::from_raw(core::ptr::slice_from_raw_parts_mut(p, len)));
             }
         }
-        pub fn load(&mut self, bufs: &[Buf]) {
+        pub fn load(&mut self, bufs: &[Buf], _poison: u8) {
             for &(p, len, live) in &self.ptrs {
                 if live {
                     Arena::free(p, len);
